@@ -69,6 +69,7 @@ JudgeLex(e) ==
        ELSE IF HasCanon(e.dt) /\ Canon(e.dt, e.out) # Canon(e.dt, e.lex) THEN "NormalisationKeepsValue:" \o e.dt
        ELSE IF FieldsJudged(e.dt, e.lex) /\ ~(FieldsJudged(e.dt, e.out) /\ FieldsOK(e.dt, e.out, e.fields)) THEN "NormalisationKeepsValue:" \o e.dt
        ELSE IF e.dt \in Durations /\ DurJudged(e.lex) /\ ~(DurJudged(e.out) /\ DurOK(e.out, e.dur)) THEN "NormalisationKeepsValue:" \o e.dt
+       ELSE IF Has(e, "out_m") /\ (e.out_m # e.out \/ e.ill_m) THEN "NormaliseMethodAgrees:" \o e.dt      \* Literal.normalize() gives what the normalising constructor gives
        ELSE IF ~e.same THEN "NormalisationKeepsValue:py:" \o e.dt
        ELSE IF e.out2 # e.out THEN "NormalisationIdempotent:" \o e.dt
        ELSE "ok"
